@@ -36,13 +36,16 @@ OPEN_STATEMENTS = [
     'equivalence of the Z-sectors of the fixed qubits): checked numerically (eigvalsh, 1e-9) on every generated case; '
     'proved: the qubit re-indexing is the order-preserving bijection with "remove" exactly at the removed positions '
     '(taper_reindex_spec) and the Pauli-table invariant of the fixed position (fixed_position_invariant)',
-    'fix_single_term_equiv / reduce_terms_agrees_on_codespace (multiplying by a stabilizer is the identity on its +1 '
-    'eigenspace; iteration over the updated stabilizer list; existence of fixed positions): exact Spec oracle only',
+    'reduce_terms_agrees_on_codespace for the whole loop (iteration over the updated stabilizer list, `+=` pruning across '
+    'iterations, existence of fixed positions): proved is fix_single_term_equiv (any operator times a stabilizer acts like '
+    'the operator on every stabilized state, in Module.End); the loop is checked by the exact Spec oracle',
     '_reduce_terms_keep_length / _lookup_term: correspondence + Spec oracle only',
     'project_onto_sector_sound for whole terms / operators: proved are the factor-level sector semantics '
     '(sector_factor_spec) and the order-preserving re-indexing (project_reindex_order_preserving); the operator-level '
     'statement is checked by the exact embedded-matrix-element oracle',
-    'rotate_qubit_by_pauli_sound: no theorem; Spec oracle (dense matrices of (c - i s P) Q (c + i s P), 1e-9)',
+    'rotate_qubit_by_pauli_sound is proved for exact (c, s) with c^2 + s^2 = 1 in the exact regime of the four sums '
+    '(ExactAdd); not proved: that numpy.cos / numpy.sin deliver such a pair (floats: Spec oracle at 1e-9) and the case '
+    'where a partial sum is pruned by the 1e-8 tolerance',
     'freeze_orbitals_sound on Fock space (sum over terms, several frozen orbitals, occupied-orbital sign): proved is the '
     'scan of a single term (deleted operators, swap count = true transpositions - n_ops, occupancy parity, hence correct '
     'sign on surviving terms); the full statement is checked by the exact embedded-matrix-element oracle',
